@@ -40,6 +40,11 @@ func genTree(r *rand.Rand, depth int, cnt *int, parent *drive.Cmd, name string, 
 		t.Prog.Spec = ""
 		t.Prog.AST = nil
 	}
+	if depth > 0 && r.Intn(7) == 0 && len(t.Prog.Opts) > 0 {
+		// a level with options only (no positional of its own) in front of its sub-commands: the detached value of
+		// one of its options is not a sub-command name and does not end the level
+		t.Prog = &Prog{Opts: t.Prog.Opts}
+	}
 	if depth > 0 && r.Intn(6) == 0 {
 		// a "command group": declares nothing of its own, only there to be traversed
 		t.Prog = &Prog{}
@@ -166,6 +171,31 @@ func treeInvocation(r *rand.Rand, root *drive.Cmd, version bool, mutateP int) (a
 		k := cur.Kids[r.Intn(len(cur.Kids))]
 		argv = append(argv, k.Aliases[r.Intn(len(k.Aliases))])
 		cur = k
+	}
+	if version && r.Intn(10) == 0 {
+		// a first token that differs from the version flag by letter case only: an ordinary (mostly undeclared) option
+		names := strings.Fields(root.VersionOptNames())
+		nm := names[r.Intn(len(names))]
+		alt := strings.ToUpper(nm)
+		if alt == nm {
+			alt = strings.ToLower(nm)
+		}
+		if len(nm) > 1 && r.Intn(2) == 0 {
+			alt = strings.ToUpper(nm[:1]) + nm[1:]
+		}
+		isName := false
+		for _, x := range names {
+			if x == alt {
+				isName = true
+			}
+		}
+		if !isName {
+			d := "--" + alt
+			if len(alt) == 1 {
+				d = "-" + alt
+			}
+			argv = append([]string{d}, argv...)
+		}
 	}
 	return
 }
@@ -485,9 +515,53 @@ func c04Late(c *core.Ctx) {
 	c.Inc("late_declared_command_routed")
 }
 
+// c04Twice: a tree of commands that declare nothing of their own (re-running their initializers is harmless in the
+// pinned library) is run on two different paths one after the other on the SAME application object: each run routes
+// like a first run
+func c04Twice(c *core.Ctx) {
+	root, _ := treeFor(c, "C04twice", 10, false)
+	var bare func(t *drive.Cmd)
+	bare = func(t *drive.Cmd) {
+		t.Prog = &Prog{}
+		for _, k := range t.Kids {
+			bare(k)
+		}
+	}
+	bare(root)
+	b := drive.Build(&drive.App{Root: root, Policy: flag.ContinueOnError})
+	for run := 0; run < 3; run++ {
+		argv, _ := treeInvocation(c.R, root, false, 0)
+		if hasHelp(argv) {
+			return
+		}
+		e := expectTree(root, argv, false)
+		d := treeDesc{Tree: treeStr(root), Argv: argv, Note: fmt.Sprintf("run %d on the same application object", run+1)}
+		c.Journal(d)
+		o := b.Run(argv)
+		c.LibDone()
+		c.Eval()
+		if e.unclaimed || e.kind != "RUN" {
+			c.Inc("twice_not_applicable")
+			return
+		}
+		c.Nontrivial("twice", d.Tree, fmt.Sprintf("%q", argv), fmt.Sprint(run))
+		if o.EventStr() != runEvents(e.path, e.node) || o.Err != nil || o.Pan != nil || o.Exit != nil {
+			c.Violation(fmt.Sprintf("run %d on the same application object: expected exactly %s and a nil return; observed events=%s err=%v panic=%v", run+1, runEvents(e.path, e.node), o.EventStr(), o.Err, o.Pan), nil, nil)
+			return
+		}
+		if run > 0 {
+			c.Inc("rerun_on_same_object_routed")
+		}
+	}
+}
+
 func runC04(c *core.Ctx) {
 	if c.Index%10 == 9 {
 		c04Late(c)
+		return
+	}
+	if c.Index%10 == 8 {
+		c04Twice(c)
 		return
 	}
 	root, version := treeFor(c, "C04", 10, false)
@@ -755,6 +829,15 @@ func runC07(c *core.Ctx) {
 		c.Violation("no error message on the error stream", map[string]interface{}{"stderr": truncateStr(o.Stderr, 400)}, nil)
 		return
 	}
+	// the error the caller gets (returned, or raised under PanicOnError) is the one that was written, character for character
+	if o.Err != nil && !strings.Contains(o.Stderr, o.Err.Error()) {
+		c.Violation(fmt.Sprintf("the returned error %q is not what the error stream shows", o.Err.Error()), map[string]interface{}{"stderr": truncateStr(o.Stderr, 400)}, nil)
+		return
+	}
+	if pe, ok := o.Pan.(error); ok && !strings.Contains(o.Stderr, pe.Error()) {
+		c.Violation(fmt.Sprintf("the error raised as a panic, %q, is not what the error stream shows", pe.Error()), map[string]interface{}{"stderr": truncateStr(o.Stderr, 400)}, nil)
+		return
+	}
 	switch policy {
 	case flag.ContinueOnError:
 		if o.EventStr() != "RET" || o.Err == nil || o.Pan != nil || o.Exit != nil {
@@ -846,6 +929,18 @@ func c14One(c *core.Ctx, root *drive.Cmd, version bool, policy flag.ErrorHandlin
 	}
 	c.Journal(d)
 	app := &drive.App{Root: root, Policy: policy, Version: version}
+	versionText := drive.VersionText
+	if version {
+		// the declared version string is printed as it is: also when it is empty, indented or spans several lines
+		switch (c.Index / 10) % 4 {
+		case 1:
+			versionText = ""
+			app.VersionStr = &versionText
+		case 2:
+			versionText = "\t app 0.9 (indented banner)\n   second line, trailing blanks   "
+			app.VersionStr = &versionText
+		}
+	}
 	randomPolicies(c.R, app)
 	if c.R.Intn(6) == 0 {
 		os.Setenv("COLUMNS", []string{"0", "10", "-1", "18", "80", "abc", ""}[c.R.Intn(7)]) // none of the library's business
@@ -864,7 +959,7 @@ func c14One(c *core.Ctx, root *drive.Cmd, version bool, policy flag.ErrorHandlin
 	case "HELP", "VERSION":
 		want := "Usage: " + e.node.Path()
 		if e.kind == "VERSION" {
-			if !strings.Contains(o.Stderr, drive.VersionText) {
+			if !strings.Contains(o.Stderr, versionText) {
 				c.Violation("the version string was not printed", map[string]interface{}{"stderr": truncateStr(o.Stderr, 300)}, nil)
 				return
 			}
